@@ -8,6 +8,7 @@ import (
 	"os"
 	"strings"
 	"sync"
+	"sync/atomic"
 	"time"
 
 	"github.com/yandex/mysync/internal/app"
@@ -124,6 +125,9 @@ type c17Spec struct {
 	// PartialA: replica vla-a is offline (lag far above the threshold) and every SHOW REPLICA STATUS the manager sends to it
 	// fails while its pings succeed; vla-b lags above the enable threshold; with a cap of 50 % vla-b must stay online
 	PartialA bool `json:"state_collection_of_an_offline_replica_fails_half_way"`
+	// SlowOff: two permanently broken online replicas with a small lag; the first offline_mode statement a manager sends
+	// to a broken replica takes effect at once but is answered only after the caller's deadline
+	SlowOff bool `json:"first_offline_statement_to_a_broken_replica_answered_late"`
 }
 
 var c17Hosts = []string{"vla-m", "vla-a", "vla-b", "vla-c", "sas-a", "sas-b", "myt-a"}
@@ -149,8 +153,13 @@ func c17Gen(seed int64, idx int) c17Spec {
 		sp.Reps[1] = c17Rep{Lag: fp(500), Offline: false, Broken: "ok"}
 		sp.Reps[2] = c17Rep{Lag: fp(5), Offline: false, Broken: "ok"}
 	}
+	if idx%8 == 6 {
+		sp.SlowOff, sp.MasterRO, sp.MarkM, sp.MOff, sp.CustomLag = true, false, false, false, true
+		sp.Reps[3] = c17Rep{Lag: fp(5), Offline: false, Broken: "permanent"}
+		sp.Reps[4] = c17Rep{Lag: fp(5), Offline: false, Broken: "permanent"}
+	}
 	sp.Restart = -1
-	if idx%3 == 0 && !sp.PartialA {
+	if idx%3 == 0 && !sp.PartialA && !sp.SlowOff {
 		sp.Restart = r.Intn(len(sp.Reps))
 		sp.Reps[sp.Restart] = c17Rep{Lag: fp(5), Offline: true, Broken: "ok"}
 	}
@@ -228,6 +237,18 @@ func c17Sim(u *Unit) {
 			}
 			w.Unlock()
 		}
+		if sp.SlowOff {
+			var once atomic.Bool
+			w.Lock()
+			w.Fault = func(c *world.StmtCtx) world.FaultAction {
+				if c.Class == "offline_on" && (c.Host == hosts[4] || c.Host == hosts[5]) && c.Caller != "mysync_"+c.Host && once.CompareAndSwap(false, true) {
+					sc.Cover("offline-statement-answered-after-the-deadline")
+					return world.FaultAction{Kind: "delay", Delay: 8 * time.Second}
+				}
+				return world.FaultAction{}
+			}
+			w.Unlock()
+		}
 		statusAt := map[string]time.Time{} // statuses written by the scenario for hosts without a daemon
 		if sp.Restart >= 0 {
 			h := hosts[sp.Restart+1]
@@ -249,6 +270,7 @@ func c17Sim(u *Unit) {
 		}
 		passes := map[string]*passT{}
 		var shutdownWrites []time.Time
+		lastBrokenOffHost, lastBrokenOff := "", time.Duration(0)
 		ons, offs := 0, 0
 		s.OnZK(func(r fakezk.Rec) {
 			if r.Path == NS+"/last_shutdown_node_time" && (r.Op == "set" || r.Op == "create") {
@@ -325,7 +347,12 @@ func c17Sim(u *Unit) {
 				byLag := lagKnown && lag > c17Enable && !ms.ReadOnly && capOK
 				byBroken := permBroken[h]
 				if byBroken && !byLag {
-					// rate limit: judged on the timestamps mysync itself wrote
+					// rate limit on ground truth: two such statements (to different hosts) at least the interval apart
+					if lastBrokenOffHost != "" && lastBrokenOffHost != h && w.Now()-lastBrokenOff < c17Interval-2*time.Second {
+						sc.Violate("C17", "broken-replicas-offline-faster-than-interval", fmt.Sprintf("%s and %s, both permanently broken, received their offline_mode statement %.1fs apart (interval %v): %s", lastBrokenOffHost, h, (w.Now()-lastBrokenOff).Seconds(), c17Interval, at))
+					}
+					lastBrokenOffHost, lastBrokenOff = h, w.Now()
+					// ... and on the timestamps mysync itself wrote
 					n := len(shutdownWrites)
 					if n >= 2 && shutdownWrites[n-1].Sub(shutdownWrites[n-2]) <= c17Interval-time.Second {
 						sc.Violate("C17", "broken-replicas-offline-faster-than-interval", fmt.Sprintf("two permanently broken replicas were taken offline %v apart (interval %v): %s", shutdownWrites[n-1].Sub(shutdownWrites[n-2]), c17Interval, at))
